@@ -474,6 +474,11 @@ class PVLEncoder(object):
         if s in self.grammar.reserved_keywords:
             return True
 
+        if s.endswith("-"):
+            # At the end of a line, a dash is a line continuation
+            # for the ODL, ISIS, and Omni readers.
+            return True
+
         tok = Token(s, grammar=self.grammar, decoder=self.decoder)
         if not tok.is_unquoted_string():
             return True
